@@ -400,6 +400,26 @@ func (s *archSession) selfCheck() {
 		return
 	}
 	s.ops = append(s.ops, "ind")
+	// IsNonDominant is a self-check that no property mentions.  As written in the pinned code its inner loop never looks at the
+	// last member; where that matters (the pairs the loop visits are free of dominance, some other pair is not) the answer is
+	// whichever the implementation's loop bounds give: `*` on both sides
+	ms := s.members()
+	visited, all := true, true
+	for i := range ms {
+		for j := i + 1; j < len(ms); j++ {
+			if refDominates(ms[i].vec, ms[j].vec) || refDominates(ms[j].vec, ms[i].vec) {
+				all = false
+				if j < len(ms)-1 {
+					visited = false
+				}
+			}
+		}
+	}
+	if visited != all {
+		s.c.Stat("ind: the pinned loop bounds and the full check differ (either accepted)")
+		s.c.Op("ind", "*")
+		return
+	}
 	s.c.Op("ind", b2s(r))
 }
 
